@@ -85,7 +85,9 @@ LEVEL_TEXT = ("Held on every generated case of the run: 5 ODE families with clos
               "nn.Module, EditableModule, mixed, one tensor supplied twice} parameters x subsets of {y0, theta, ts} requiring grad (leaf and "
               "non-leaf) x 5 cotangent patterns x increasing/decreasing, uniform/ragged grids x first order (both backward code paths) and "
               "second order; every gradient incl. d/dts[0] compared with autograd of the closed form from the same leaves; unused tensors "
-              "must get None/0.")
+              "must get None/0.  Histories on one graph: 10 sequences of 2-3 backward passes of different modes (plain, graph-recording + second "
+              "order, .backward(), subset of leaves, two cotangents), each pass also against the same pass on a fresh graph.  Right-hand sides "
+              "returning a tensor they do not own (parameter, module attribute, state, time; untouched or as a view).")
 LEVEL_NOTE = ("Relative tolerance 3e-6 / 3e-5 (first / second order; 1e-4 / 1e-3 with rk23 at 1e-9) for adaptive integrators at 1e-10; "
               "fixed-step methods are decided on a twice-refined grid (order-of-convergence test + 3e-3 on the finest grid; Euler by the "
               "order test alone); trusts torch.linalg.matrix_exp and its autograd formulas.")
@@ -95,6 +97,9 @@ RULE = ("seeded sampling over family x method configuration x parameter mode x r
         "reference gradient, the right-hand side was evaluated during the backward pass (spy count) and the gradients were compared "
         "leaf by leaf")
 RULE += ('; extra kind abort_reuse: right-hand side raising at a seeded evaluation of forward / backward, the object reused afterwards')
+RULE += ('; group multipass: ONE solve_ivp graph, 2-3 backward passes of seeded modes (plain / create_graph + second differentiation / '
+         '.backward() into .grad / subset of leaves; same or different cotangents), every pass against the closed form and against the same pass '
+         'alone on a fresh graph; kind passthrough: right-hand sides returning the parameter / module attribute / state / time itself or a view of it')
 MIN_NONTRIVIAL = {"quick": 500, "thorough": 5000}
 ASSUMPTIONS = [
     "float64 only; state size <= 6, <= 9 requested times for adaptive methods, time span 0.3..1.5, |t0| <= 1, strictly monotone grids "
@@ -110,6 +115,12 @@ ASSUMPTIONS = [
     "'bck_options are honoured' is decided numerically on linear systems only (dL/dy0 there depends on the backward integrator alone)",
     "aliasing: one tensor supplied twice in params, or as an object's parameter and in params; two attributes of one object sharing "
     "a tensor are not generated here (C09/C10)",
+    "multipass: 2-3 backward passes per graph, every pass with retain_graph=True; adaptive configurations are compared with the closed form "
+    "(tolerances of the adaptive group) and every configuration with the same pass on a fresh graph of an identical call (1e-9 relative: the "
+    "same floating-point computation); in-place modification of inputs between passes is not generated",
+    "passthrough: dy/dt = v, dy/dt = y, dy/dt = t (0-dim state) and the tuple state (v, y2) with the returned tensor being the input itself "
+    "(return x / x.contiguous() / x.to(dtype)) or a view (view / [...] / expand); schemes integrate constant and linear-in-t right-hand sides "
+    "exactly (1e-10 / 1e-9); dy/dt = y with rk4/rk38 on a 48-fold refined grid, h <= 0.032 (1e-5 / 1e-4), Euler not generated there",
     "removing the re-seeding of y with the stored forward values changes the gradients by less than the integrators' accuracy and "
     "is therefore not detectable (nor required) by this property",
 ]
@@ -120,7 +131,14 @@ _REQ = {"abort_reuse_compared": 20, "long_horizon_compared": 10, "first_nograph_
         "bck_different": 200, "rhs_calls_backward": 100000, "rhs_calls_backward2": 30000, "bcklin_compared": 60,
         "refinement_tests": 200, "cot_one_time": 250, "aliased_compared": 40, "derived_leaves": 80,
         "degenerate_grid_compared:lead": 8, "degenerate_grid_compared:inner": 8, "degenerate_grid_compared:trail": 8,
-        "degenerate_grid_compared:single": 8}
+        "degenerate_grid_compared:single": 8,
+        # several backward passes of different modes through one graph (vf/c08_passes.py)
+        "multipass_cg_after_plain_ts": 15, "multipass_cg_after_plain_ts_closed_form": 10, "multipass_plain_after_cg": 6,
+        "multipass_fresh_compared": 40, "multipass_second_order_closed_form": 25, "multipass_conf_grid": 10,
+        # right-hand sides returning tensors they do not own (vf/c08_passes.py)
+        "passthrough_param_returned_untouched_plain_backward": 12, "passthrough_state_returned_untouched": 10,
+        "passthrough_view_returned": 40, "passthrough_compared_cg": 60, "passthrough_compared_nocg": 35,
+        "passthrough_second_order_compared": 18, "passthrough_exact": 70, "passthrough_adaptive": 15, "passthrough_fine": 10}
 REQUIRED_COUNTERS = {"quick": dict(_REQ), "thorough": {k: 8 * v for k, v in _REQ.items()}}
 
 
@@ -224,6 +242,10 @@ def cases(seed, tier):
     # ---- extra scenarios (right-hand side with control flow on t; one bck_options dict shared by several calls): vf/c08_extra.py
     from vf import c08_extra
     out.extend(c08_extra.cases(seed, tier))
+    # ---- several backward passes of different modes through ONE graph; right-hand sides returning tensors they do not own: vf/c08_passes.py
+    from vf import c08_passes
+    out.extend(c08_passes.multipass_cases(seed, tier, _common))
+    out.extend(c08_passes.passthrough_cases(seed, tier))
     # the monitors of C09 on solve_ivp: special representations (tied / duplicated / aliased tensors ...) and a failing call followed by a normal one
     from vf import c09_extra as _c9x
     out.extend(_c9x.delegated_cases(seed, tier, ("solve_ivp",), "c08d"))
@@ -713,6 +735,12 @@ def _check_unused(obs, desc, P, out, tag):
 
 
 def run_case(desc):
+    if desc.get("group") == "multipass":
+        from vf import c08_passes
+        return c08_passes.run_multipass(desc)
+    if desc.get("group") == "extra" and desc.get("kind") == "passthrough":
+        from vf import c08_passes
+        return c08_passes.run_passthrough(desc)
     if desc.get("group") == "extra":
         from vf import c08_extra
         return c08_extra.run_case(desc)
